@@ -6,7 +6,14 @@
 // (accepted child / replacing competitor / unchanged tip).  A step that could not be placed inside its slot (loaded
 // machine) makes its script inconclusive - never a violation.
 //
-// usage: recv scripts.jsonl out.json blocktime-seconds
+// Step kinds: "ok" (valid block), "bad" (signed with another validator's key), "lying" (correctly signed by a generator that
+// already has a block on the chain and claims maxHeightGenerated = that height - 1: contradicts its own header, LIP-0014).
+// Script position "start" / "end": the steps of a slot are executed in the first / in the last second of the slot (receive
+// times are compared on whole seconds; the guard band is 300 ms on both sides of every slot boundary).
+// With a priority table (TP rows printed by TLC from ForkChoice.tla) Executer.Synced is probed after every step around the
+// node's own (height, prevoted height) and compared with the table row of the rank-compressed values.
+//
+// usage: recv scripts.jsonl out.json blocktime-seconds [tables.txt]
 package main
 
 import (
@@ -15,7 +22,9 @@ import (
 	"encoding/json"
 	"fmt"
 	"os"
+	"sort"
 	"strconv"
+	"strings"
 	"sync"
 	"time"
 
@@ -26,13 +35,16 @@ type Step struct {
 	Op   string `json:"op"`
 	S    int    `json:"s"`
 	Ok   bool   `json:"ok"`
+	Kind string `json:"kind"`
 	Exp  string `json:"exp"`
 	Now  int    `json:"now"`
 	Late bool   `json:"late"`
+	Pos  string `json:"pos"`
 }
 
 type Script struct {
 	Script []Step `json:"script"`
+	NVal   int    `json:"nval"`
 }
 
 type Violation struct {
@@ -42,44 +54,113 @@ type Violation struct {
 }
 
 type Out struct {
-	Scripts      int            `json:"scripts"`
-	Completed    int            `json:"completed"`
-	Timing       int            `json:"timing_inconclusive"`
-	Steps        int            `json:"steps"`
-	Ops          map[string]int `json:"ops"`
-	TieBreaks    int            `json:"tie_breaks_performed"`
-	InTimeKept   int            `json:"competitors_refused_tip_in_time"`
-	AfterReject  int            `json:"competitors_offered_after_a_rejected_child"`
-	Restarts     int            `json:"restarts"`
-	HarnessErr   []string       `json:"harness_errors"`
-	Violations   []Violation    `json:"violations"`
-	BlockTime    int            `json:"block_time_s"`
-	WallSeconds  float64        `json:"wall_s"`
+	Scripts        int            `json:"scripts"`
+	Completed      int            `json:"completed"`
+	Timing         int            `json:"timing_inconclusive"`
+	Steps          int            `json:"steps"`
+	Ops            map[string]int `json:"ops"`
+	TieBreaks      int            `json:"tie_breaks_performed"`
+	InTimeKept     int            `json:"competitors_refused_tip_in_time"`
+	AfterReject    int            `json:"competitors_offered_after_a_rejected_child"`
+	Restarts       int            `json:"restarts"`
+	LyingChild     int            `json:"contradicting_children_offered"`
+	LyingComp      int            `json:"contradicting_competitors_offered"`
+	LyingCompTie   int            `json:"contradicting_competitors_in_tie_break_window"`
+	LyingSample    string         `json:"contradicting_sample_error"`
+	FirstSecond    int            `json:"blocks_offered_in_first_second_of_slot"`
+	LastSecond     int            `json:"blocks_offered_in_last_second_of_slot"`
+	EndScripts     int            `json:"scripts_at_slot_end"`
+	EndCompleted   int            `json:"scripts_at_slot_end_completed"`
+	EndTieBreaks   int            `json:"tie_breaks_in_last_second"`
+	StartCompleted int            `json:"scripts_at_slot_start_completed"`
+	Synced         int            `json:"synced_probes"`
+	SyncedTrue     int            `json:"synced_probes_true"`
+	SyncedGenesis  int            `json:"synced_probes_genesis"`
+	SyncedRaised   int            `json:"synced_probes_tip_raised_prevoted"`
+	MaxBatchMs     int64          `json:"max_batch_ms"`
+	SetupMs        int64          `json:"setup_ms"`
+	HarnessErr     []string       `json:"harness_errors"`
+	Violations     []Violation    `json:"violations"`
+	BlockTime      int            `json:"block_time_s"`
+	WallSeconds    float64        `json:"wall_s"`
 }
 
-const nVal = 4
-const base = 8 // slot of model time 0
+const base = 24 // slot of model time 0 (a multiple of every generator-round length used: 3 and 4)
 
 type run struct {
-	idx     int
-	sc      Script
-	n       *node.Node
-	cfg     *node.Config
-	pos     int
-	dead    bool
-	timing  bool
+	idx                   int
+	sc                    Script
+	nval                  int
+	end                   bool // steps are placed in the last second of their slot
+	probeDue              bool
+	n                     *node.Node
+	cfg                   *node.Config
+	pos                   int
+	dead                  bool
+	timing                bool
 	rejectedChildSinceTip bool
+}
+
+// prio is the TP table of ForkChoice.tla: (ver, hh, hp, h, p) -> header (ver, hh, hp) has priority over (h, p)
+var prio map[[5]int]bool
+
+func loadPrio(path string) error {
+	f, err := os.Open(path)
+	if err != nil {
+		return err
+	}
+	defer f.Close()
+	prio = map[[5]int]bool{}
+	sc := bufio.NewScanner(f)
+	sc.Buffer(make([]byte, 1<<20), 1<<24)
+	for sc.Scan() {
+		line := strings.TrimSpace(sc.Text())
+		if !strings.HasPrefix(line, "<<\"TP\"") {
+			continue
+		}
+		line = strings.TrimSuffix(strings.TrimPrefix(line, "<<"), ">>")
+		parts := strings.Split(line, ",")
+		if len(parts) < 7 {
+			continue
+		}
+		v := make([]int, len(parts))
+		for i := 1; i < len(parts); i++ {
+			v[i], _ = strconv.Atoi(strings.TrimSpace(parts[i]))
+		}
+		// <<"TP", hh, hp, h, p, res, ver>>
+		prio[[5]int{v[6], v[1], v[2], v[3], v[4]}] = v[5] == 1
+	}
+	if len(prio) == 0 {
+		return fmt.Errorf("no TP rows in %s", path)
+	}
+	return nil
+}
+
+// expectedPriority looks the verdict up in the TLC table: the specification uses comparisons between the four values only,
+// so the row of the rank-compressed values decides (<= 4 distinct values -> ranks 0..3)
+func expectedPriority(ver int, hh, hp, h, p uint32) (bool, bool) {
+	vals := []uint32{hh, hp, h, p}
+	sorted := append([]uint32{}, vals...)
+	sort.Slice(sorted, func(a, b int) bool { return sorted[a] < sorted[b] })
+	rank := map[uint32]int{}
+	for _, v := range sorted {
+		if _, ok := rank[v]; !ok {
+			rank[v] = len(rank)
+		}
+	}
+	e, ok := prio[[5]int{ver, rank[hh], rank[hp], rank[h], rank[p]}]
+	return e, ok
 }
 
 func main() {
 	if len(os.Args) < 4 {
-		fmt.Fprintln(os.Stderr, "usage: recv scripts.jsonl out.json blocktime")
+		fmt.Fprintln(os.Stderr, "usage: recv scripts.jsonl out.json blocktime [tables.txt]")
 		os.Exit(2)
 	}
 	bt, _ := strconv.Atoi(os.Args[3])
 	node.BlockTime = uint32(bt)
 	T := time.Duration(bt) * time.Second
-	out := &Out{Ops: map[string]int{}, BlockTime: bt}
+	out := &Out{Ops: map[string]int{}, BlockTime: bt, HarnessErr: []string{}, Violations: []Violation{}}
 	var mu sync.Mutex
 	viol := func(key, what string, replay interface{}) {
 		mu.Lock()
@@ -95,6 +176,11 @@ func main() {
 			out.HarnessErr = append(out.HarnessErr, s)
 		}
 	}
+	if len(os.Args) > 4 && os.Args[4] != "" {
+		if err := loadPrio(os.Args[4]); err != nil {
+			herr("priority table: " + err.Error())
+		}
+	}
 	f, err := os.Open(os.Args[1])
 	if err != nil {
 		panic(err)
@@ -107,25 +193,69 @@ func main() {
 		if json.Unmarshal(sc.Bytes(), &s) != nil || len(s.Script) == 0 {
 			continue
 		}
-		runs = append(runs, &run{idx: len(runs), sc: s})
+		r := &run{idx: len(runs), sc: s, nval: s.NVal, end: s.Script[0].Pos == "end"}
+		if r.nval == 0 {
+			r.nval = 4
+		}
+		if r.end {
+			out.EndScripts++
+		}
+		runs = append(runs, r)
 	}
 	out.Scripts = len(runs)
 	start := time.Now()
-	// model time 0 = slot `base`, which starts at the next full second + 1
-	t0 := time.Unix(time.Now().Unix()+2, 0)
-	genesisTS := uint32(t0.Unix()) - uint32(base*bt)
-	w := []uint64{1, 1, 1, 1}
-	gens := []int{1, 2, 3, 4}
-	for _, r := range runs {
-		r.cfg = &node.Config{NVal: nVal, Batch: nVal, Init: node.ParamSet{PcT: 3, CertT: 3, W: w, Gens: gens}, Now: base}
-		n, err := node.New(r.cfg, nil, genesisTS)
-		if err != nil {
-			herr("node: " + err.Error())
-			r.dead = true
-			continue
+	mkcfg := func(nval int) *node.Config {
+		w := make([]uint64, nval)
+		gens := make([]int, nval)
+		for i := range w {
+			w[i], gens[i] = 1, i+1
 		}
-		r.n = n
+		thr := uint64(2*nval)/3 + 1 // 3 of 4, 3 of 3
+		return &node.Config{NVal: nval, Batch: nval, Init: node.ParamSet{PcT: thr, CertT: thr, W: w, Gens: gens}, Now: base}
 	}
+	// how long does it take to create the nodes on this machine right now?  16 throw-away nodes, side by side
+	probe := time.Now()
+	{
+		var wg sync.WaitGroup
+		for i := 0; i < 16; i++ {
+			wg.Add(1)
+			go func() {
+				defer wg.Done()
+				if n, err := node.New(mkcfg(4), nil, uint32(time.Now().Unix())-uint32(base*bt)); err == nil {
+					n.Close()
+				}
+			}()
+		}
+		wg.Wait()
+	}
+	est := time.Since(probe) * time.Duration(len(runs)/16+1)
+	// model time 0 = slot `base`; it starts on a full second, after the nodes exist (twice the estimate + 1..2 s)
+	t0 := time.Unix(time.Now().Add(2*est).Unix()+2, 0)
+	genesisTS := uint32(t0.Unix()) - uint32(base*bt)
+	{
+		var wg sync.WaitGroup
+		sem := make(chan struct{}, 16)
+		for _, r := range runs {
+			wg.Add(1)
+			sem <- struct{}{}
+			go func(r *run) {
+				defer wg.Done()
+				defer func() { <-sem }()
+				r.cfg = mkcfg(r.nval)
+				n, err := node.New(r.cfg, nil, genesisTS)
+				if err != nil {
+					herr("node: " + err.Error())
+					r.dead = true
+					return
+				}
+				r.n = n
+				// a node that is still at its genesis block
+				r.probeSynced(out, &mu, viol, herr)
+			}(r)
+		}
+		wg.Wait()
+	}
+	out.SetupMs = time.Since(probe).Milliseconds()
 	maxTick := 0
 	for _, r := range runs {
 		for _, s := range r.sc.Script {
@@ -142,12 +272,14 @@ func main() {
 		now := time.Now()
 		return now.After(a) && now.Before(b) && slotNow() == base+k
 	}
-	for k := 0; k <= maxTick; k++ {
-		time.Sleep(time.Until(t0.Add(time.Duration(k) * T).Add(500 * time.Millisecond)))
+	// second of the slot in which `t` lies: 0 = first, bt-1 = last
+	secondOf := func(k int, t time.Time) int { return int(t.Unix() - t0.Unix() - int64(k*bt)) }
+	batch := func(k int, end bool) {
 		var wg sync.WaitGroup
 		sem := make(chan struct{}, 16)
+		t1 := time.Now()
 		for _, r := range runs {
-			if r.dead || r.timing {
+			if r.dead || r.timing || r.end != end {
 				continue
 			}
 			wg.Add(1)
@@ -183,7 +315,9 @@ func main() {
 						r.timing = true
 						return
 					}
+					ta := time.Now()
 					ok := r.step(s, out, &mu, viol, herr)
+					tb := time.Now()
 					if !inSlot(k) { // the step itself crossed the guard band: its outcome is not judged
 						r.timing = true
 						return
@@ -192,17 +326,59 @@ func main() {
 						r.dead = true
 						return
 					}
+					if s.Op != "restart" {
+						sa, sb := secondOf(k, ta), secondOf(k, tb)
+						mu.Lock()
+						if sa == 0 && sb == 0 {
+							out.FirstSecond++
+						}
+						if sa == bt-1 && sb == bt-1 {
+							out.LastSecond++
+							if s.Exp == "replace" {
+								out.EndTieBreaks++
+							}
+						}
+						mu.Unlock()
+					}
+					if end {
+						r.probeDue = true // outside the narrow window at the end of the slot
+					} else {
+						r.probeSynced(out, &mu, viol, herr)
+					}
 					r.pos++
 				}
 			}(r)
 		}
 		wg.Wait()
+		if d := time.Since(t1).Milliseconds(); d > out.MaxBatchMs {
+			out.MaxBatchMs = d
+		}
+	}
+	for k := 0; k <= maxTick; k++ {
+		// scripts placed at the start of their slots: from 350 ms after the slot boundary
+		time.Sleep(time.Until(t0.Add(time.Duration(k) * T).Add(350 * time.Millisecond)))
+		batch(k, false)
+		// scripts placed at the end: the last second of the slot, up to the guard band
+		time.Sleep(time.Until(t0.Add(time.Duration(k+1) * T).Add(-980 * time.Millisecond)))
+		batch(k, true)
+		// the Synced probes of the scripts at the slot end do not depend on the clock: after the batch
+		for _, r := range runs {
+			if r.probeDue && !r.dead && !r.timing {
+				r.probeSynced(out, &mu, viol, herr)
+			}
+			r.probeDue = false
+		}
 	}
 	for _, r := range runs {
 		if r.timing {
 			out.Timing++
 		} else if !r.dead && r.pos == len(r.sc.Script) {
 			out.Completed++
+			if r.end {
+				out.EndCompleted++
+			} else {
+				out.StartCompleted++
+			}
 		}
 		if r.n != nil {
 			r.n.Close()
@@ -215,12 +391,70 @@ func main() {
 	}
 }
 
+// probeSynced asks the real Executer whether its chain is ahead of a peer reporting (h, p), for all (h, p) around its own
+// (height, prevoted height), and compares with the priority table of ForkChoice.tla (no table: no probes)
+func (r *run) probeSynced(out *Out, mu *sync.Mutex, viol func(string, string, interface{}), herr func(string)) {
+	if prio == nil || r.n == nil {
+		return
+	}
+	n := r.n
+	tip := n.Tip().Header
+	mhpv, _, _, err := n.Ex.GetBFTHeights(n.Ex.VerifConsensusStore())
+	if err != nil {
+		herr("GetBFTHeights: " + err.Error())
+		return
+	}
+	ver := 2
+	if tip.Version == 0 {
+		ver = 0
+	}
+	for dh := -1; dh <= 1; dh++ {
+		for dp := -1; dp <= 1; dp++ {
+			h, p := int64(tip.Height)+int64(dh), int64(mhpv)+int64(dp)
+			if h < 0 || p < 0 {
+				continue
+			}
+			exp, ok := expectedPriority(ver, tip.Height, mhpv, uint32(h), uint32(p))
+			if !ok {
+				herr(fmt.Sprintf("priority table has no row for ranks of (%d,%d,%d,%d)", tip.Height, mhpv, h, p))
+				return
+			}
+			got, err := n.Ex.Synced(uint32(h), uint32(p), 0)
+			mu.Lock()
+			out.Synced++
+			if exp {
+				out.SyncedTrue++
+			}
+			if ver == 0 {
+				out.SyncedGenesis++
+			} else if mhpv != tip.MaxHeightPrevoted {
+				out.SyncedRaised++
+			}
+			mu.Unlock()
+			if err != nil || got != exp {
+				key := "recvtime:synced-mismatch"
+				if ver == 0 {
+					key = "recvtime:synced-mismatch:genesis"
+				}
+				viol(key, fmt.Sprintf("script %d after step %d: node at height %d (block version %d) with prevoted height %d (its tip's header says %d): Synced(height %d, maxHeightPrevoted %d) = %v (err %v), ForkChoice.tla HasPriority says %v",
+					r.idx, r.pos, tip.Height, tip.Version, mhpv, tip.MaxHeightPrevoted, h, p, got, err, exp),
+					map[string]interface{}{"script": r.sc.Script, "nval": r.nval, "failed_step": r.pos, "synced": []int64{h, p}})
+				return
+			}
+		}
+	}
+}
+
 // step executes one offered block / restart and compares the real tip with the model's expectation
 func (r *run) step(s Step, out *Out, mu *sync.Mutex, viol func(string, string, interface{}), herr func(string)) bool {
 	n := r.n
 	count := func(f func()) { mu.Lock(); f(); mu.Unlock() }
 	count(func() { out.Steps++; out.Ops[s.Op]++ })
-	rep := map[string]interface{}{"script": r.sc.Script, "failed_step": r.pos}
+	rep := map[string]interface{}{"script": r.sc.Script, "nval": r.nval, "failed_step": r.pos}
+	kind := s.Kind
+	if kind == "" {
+		kind = map[bool]string{true: "ok", false: "bad"}[s.Ok]
+	}
 	switch s.Op {
 	case "restart":
 		n.StopExecuter()
@@ -256,8 +490,28 @@ func (r *run) step(s Step, out *Out, mu *sync.Mutex, viol func(string, string, i
 			count(func() { out.AfterReject++ })
 		}
 	}
-	if !s.Ok {
-		c.Signer = c.Gen%nVal + 1 // signed with another validator's key
+	label := s.Op
+	switch kind {
+	case "bad":
+		c.Signer = c.Gen%r.nval + 1 // signed with another validator's key
+	case "lying":
+		// c.Mhg is the height of the generator's newest block on the chain (below the tip for a competitor)
+		if c.Mhg == 0 {
+			herr(fmt.Sprintf("script %d step %d: the model says the generator of slot +%d has a block on the chain, the node has none", r.idx, r.pos, s.S))
+			return false
+		}
+		c.Mhg--
+		label = "contradicting-" + s.Op
+		count(func() {
+			if s.Op == "child" {
+				out.LyingChild++
+			} else {
+				out.LyingComp++
+				if s.Late && s.S == s.Now {
+					out.LyingCompTie++
+				}
+			}
+		})
 	}
 	b := n.Build(c)
 	perr := n.Ex.VerifProcess(b, "12D3KooWverifpeer")
@@ -270,6 +524,13 @@ func (r *run) step(s Step, out *Out, mu *sync.Mutex, viol func(string, string, i
 		obs = "replace"
 	case bytes.Equal(after.Header.ID, before.Header.ID):
 		obs = "none"
+	}
+	if kind == "lying" && perr != nil {
+		count(func() {
+			if out.LyingSample == "" {
+				out.LyingSample = perr.Error()
+			}
+		})
 	}
 	if s.Op == "child" {
 		if obs == "accept" {
@@ -288,12 +549,13 @@ func (r *run) step(s Step, out *Out, mu *sync.Mutex, viol func(string, string, i
 	if obs == s.Exp {
 		return true
 	}
-	key := fmt.Sprintf("recvtime:%s:%s-instead-of-%s", s.Op, obs, s.Exp)
-	if s.Op == "comp" && obs == "replace" && !s.Late {
+	key := fmt.Sprintf("recvtime:%s:%s-instead-of-%s", label, obs, s.Exp)
+	if s.Op == "comp" && obs == "replace" && !s.Late && kind != "lying" {
 		key = "recvtime:tip-received-in-time-replaced"
 	}
-	viol(key, fmt.Sprintf("script %d step %d: %s(slot +%d, %s) at wall slot +%d, tip received %s: the model expects '%s', the node did '%s' (process error: %v)",
-		r.idx, r.pos, s.Op, s.S, map[bool]string{true: "valid", false: "wrong signer"}[s.Ok], s.Now,
+	viol(key, fmt.Sprintf("script %d step %d: %s(slot +%d, %s) at wall slot +%d (%s of the slot), tip received %s: the model expects '%s', the node did '%s' (process error: %v)",
+		r.idx, r.pos, s.Op, s.S, map[string]string{"ok": "valid", "bad": "wrong signer", "lying": "contradicts its generator's earlier header on this chain"}[kind], s.Now,
+		map[bool]string{true: "last second", false: "first second"}[r.end],
 		map[bool]string{true: "outside its slot", false: "within its slot (or restored from disk)"}[s.Late], s.Exp, obs, perr), rep)
 	return false
 }
